@@ -67,7 +67,7 @@ RULE = (
     "from both ends of the window for which the solver returned a number. Distinct by canonical JSON of the case."
 )
 BUDGET = {
-    "quick": {"cases": 2000, "shrink": True, "time_cap_s": 900},
+    "quick": {"cases": 3000, "shrink": True, "time_cap_s": 900},
     "thorough": {"cases": 50000, "shrink": True, "time_cap_s": 3300},
 }
 K = 10.0
@@ -169,7 +169,7 @@ def st_jouguet(draw, tier):
 def st_cut(draw, tier):
     spec = draw(Z.st_eos(families=CUT_FAMILIES, weights={"bag": 2, "template": 3, "twostep": 3, "cubic": 2}))
     side = draw(st.sampled_from(["deflag", "deflag", "deflag", "deton", "deton", "none"]))
-    phase = "low" if side == "deton" else draw(st.sampled_from(["low", "high", "both"])) if side == "deflag" else "none"
+    phase = "low" if side == "deton" else draw(st.sampled_from(["low", "high", "both", "both"])) if side == "deflag" else "none"
     return {"kind": "cut", "eos": spec, "tol": draw(Z.st_tolerances()), "side": side, "phase": phase,
             "u": draw(st.floats(0.0, 1.0)), "u2": draw(st.floats(0.0, 1.0)),
             "genuine": draw(st.booleans()), "extrapolate": draw(st.booleans())}
@@ -177,10 +177,10 @@ def st_cut(draw, tier):
 
 @st.composite
 def st_case(draw, tier):
-    k = draw(st.integers(0, 19))   # explicit weights: 15 matching : 2 jouguet : 3 cut
-    if k < 15:
+    k = draw(st.integers(0, 19))   # explicit weights: 13 matching : 2 jouguet : 5 cut
+    if k < 13:
         return draw(st_matching(tier))
-    if k < 17:
+    if k < 15:
         return draw(st_jouguet(tier))
     return draw(st_cut(tier))
 
@@ -585,6 +585,8 @@ def _scan(v, ctx, hyd, vw, cls):
     v.subs_checked.extend(sub.subs_checked)
     if sub.discard and not v.discard:
         v.discarded(sub.discard)
+    # classes under which this very wall's matching was already judged wrong (used to classify consequences)
+    _scan.last_bad = [x["cls"] for x in sub.violations]
     return res
 
 
@@ -928,6 +930,7 @@ def check_cut(case, v):
         if not a <= vw < vf:
             continue
         res = _scan(v, ctx, hyd, vw, f"{cls0}/scan")
+        unconverged = getattr(hyd, "success", True) is False   # flag left by this very findMatching call
         if res is None:
             continue
         over_low = res[3] - Tlow_max - box(Tlow_max, rtol, atol)
@@ -942,7 +945,18 @@ def check_cut(case, v):
                 v.label("cut:non-monotone")
                 return v.discarded("cut:non-monotone")
             if (over_low > 0 and res[3] - mr.Tm > a_["Tm"]) or (over_high > 0 and res[2] - mr.Tp > a_["Tp"]):
-                v.fail("cut-slower", f"{cls0}/{speed_bucket(vw)}",
+                bad = getattr(_scan, "last_bad", [])
+                after = ("/after-unconverged" if unconverged or any("unconverged-flag" in c_ for c_ in bad)
+                         else "/after-wrong-matching" if bad else "")
+                # is the returned matching a solution of the junction conditions at all?  (C02's subject; a returned
+                # non-solution is the signature of the vacuous acceptance test of the 2x2 solve, C02-F1a)
+                try:
+                    r1, r2 = R.wall_residuals(eos, res[0], res[1], res[2], res[3])
+                    if max(abs(r1), abs(r2)) > 1e3 * max(rtol, 1e-9):
+                        after += "/nonsolution"
+                except Exception:  # noqa: BLE001
+                    pass
+                v.fail("cut-slower", f"{cls0}/{speed_bucket(vw)}{after}",
                        f"wall vw={vw:.8g} slower than fastestDeflag()={vf:.8g} has (T+, T-) = ({res[2]:.10g}, "
                        f"{res[3]:.10g}) outside the tabulated ranges (max {Thigh_max:.10g}, {Tlow_max:.10g}); the exact "
                        f"matching has ({mr.Tp:.10g}, {mr.Tm:.10g})", vw=vw, matching=list(res))
